@@ -144,7 +144,8 @@ def gen_table(rng):
         elif k == 'integer':
             col['datatype'] = rng.choice(['integer', 'long', 'int'])
             for _ in range(nrows):
-                v = None if rng.random() < null_p else rng.choice([0, -1, 7, 2**40, -2**53, rng.randint(-999, 999)])
+                v = None if rng.random() < null_p else rng.choice([0, -1, 7, 2**40, -2**53, rng.randint(-999, 999),
+                                                                   2**53 + 1, -(2**53) - 3, 2**63 - 1])   # beyond exact doubles
                 vals.append(v)
                 txt.append('' if v is None else str(v))
         elif k == 'number':
@@ -232,6 +233,10 @@ def load_table(tb, workdir):
             # the other place CSVW allows a dialect: on the table description of a table group
             md = {'@context': 'http://www.w3.org/ns/csvw',
                   'tables': [{'url': 't.csv', 'dialect': dialect, 'tableSchema': {'columns': cols}}]}
+            if SLOT[0] % 8 == 1:
+                # ... while the table group has a dialect of its own, which the table's overrides
+                md['dialect'] = {'delimiter': '\t' if delim != '\t' else ',', 'encoding': 'utf-8' if tb['enc'] != 'utf-8' else 'utf-16',
+                                 'header': not tb['header']}
         elif dialect:
             md['dialect'] = dialect
         mdp = os.path.join(d, 't.csv-metadata.json')
